@@ -198,6 +198,43 @@ def check_construction(rep, r):
     if not ok:
         rep.violation('failing-input', {'op': 'construction', 'why': 'acceptable elements not all kept in order / not converted to TRS'})
     rep.count()
+    # a container built from another container of the same class is a new list: later in-place operations on
+    # either one must not make the other lose (or gain) elements
+    for cls, elems_ in ((TractList, good_t + [t1]), (TRSList, ['154n97w14', '1n1w01', 'XXXzXXXzXX', '154n97w14'])):
+        src = cls(elems_)
+        before = ids(src)
+        for how in ('constructor', 'copy', 'extend', '+=', '+', 'from_multiple'):
+            if how == 'constructor':
+                cp = cls(src)
+            elif how == 'copy':
+                cp = src.copy()
+            elif how == 'extend':
+                cp = cls()
+                cp.extend(src)
+            elif how == '+=':
+                cp = cls()
+                cp += src
+            elif how == '+':
+                cp = cls() + src
+            else:
+                cp = cls.from_multiple(src)
+            op = r.below(5)
+            if op == 0:
+                cp.filter(lambda e: True, drop=True)
+            elif op == 1:
+                cp.pop()
+            elif op == 2:
+                cp.append(elems_[0])
+            elif op == 3:
+                cp.filter_errors(drop=True)
+                cp.filter_duplicates(drop=True)
+            else:
+                cp.custom_sort('s.rev')
+                cp.reverse()
+            if ids(src) != before:
+                rep.violation('failing-input', {'op': f'{cls.__name__} via {how}, then in-place operation {op} on the new list',
+                                                'why': 'the source container no longer holds every element it was given, in order'})
+            rep.count()
 
 
 def run(ctx):
